@@ -506,6 +506,9 @@ func genMul(r *hx.RNG, l hx.Limits) *opCase {
 		k.class = "square"
 	case shape < 50: // products landing at the ends of the exponent range
 		n1, n2 := r.Range(1, 80), r.Range(1, 80)
+		if r.Chance(20) { // long operands too (the long-multiplication routines have range shortcuts of their own to get wrong)
+			n1, n2 = r.Range(500, 1400), r.Range(500, 1400)
+		}
 		k.p = int64(r.Range(1, 100))
 		var target int64
 		if r.Bool() {
